@@ -50,7 +50,26 @@ fn check_one(prop: &str, s: &Scaled, l: &mut Local) -> Outcome {
             crate::c11::check_program(&p, l)?;
             crate::c11::check_storageless(&p, l)
         },
-        "C12" => crate::c12::check_program(&p, l),
+        "C12" => {
+            crate::c12::check_program(&p, l)?;
+            // the same long program with a defect planted late: every entry point must report the
+            // build error and leave the context alone, however long the well-formed part in front is
+            for (k, pos) in [toks.len() * 2 / 3, toks.len().saturating_sub(1)].into_iter().enumerate() {
+                let mut t = toks.clone();
+                if t.len() < 3 {
+                    continue;
+                }
+                if k == 0 {
+                    t.insert(pos, Tok::Int(1));
+                    t.insert(pos, Tok::Int(2));
+                } else {
+                    t.insert(pos, Tok::RParen);
+                }
+                let broken = Program { family: "scaled-planted", src: tok::render_spaced(&t), ast: None, ctx: p.ctx.clone() };
+                crate::c12::check_program(&broken, l)?;
+            }
+            Ok(())
+        },
         "C13" => {
             // planted defects at three positions of the long token sequence
             for (k, pos) in [toks.len() / 2, toks.len().saturating_sub(1), 0].into_iter().enumerate() {
